@@ -8,16 +8,6 @@ From OFGA Require Import Base.Bytes Store.ReadSpec Store.MemoryRead Store.SqlRea
 Definition flag_read_all_ignores_conditions (s : store) (f : read_filter) : bool :=
   m_filter_is_empty f && negb (forallb (conds_ok (rf_conds f)) s).
 
-(* memory ReadUsersetTuples: the Conditions test is dead code *)
-Definition flag_usersets_conditions_ignored (s : store) (f : usersets_filter) : bool :=
-  negb (forallb (conds_ok (uf_conds f)) s).
-
-(* memory ReadUsersetTuples: one copy of the row per matching restriction entry *)
-Definition m_restr_count (rs : list restriction) (t : tuple) : nat :=
-  length (filter (fun r => m_restr_match r t) rs).
-Definition flag_usersets_duplicate_restrictions (s : store) (f : usersets_filter) : bool :=
-  existsb (fun t => Nat.ltb 1 (m_restr_count (uf_restr f) t)) s.
-
 (* memory ReadStartingWithUser: one copy of the row per matching user-filter entry *)
 Fixpoint nodup_users (us : list user) : bool :=
   match us with
